@@ -249,6 +249,40 @@ def directed_startdelta_spec(rng, idx):
             "epsilon": rng.choice([None, F(1, 10)]), "prune": rng.random() < 0.7, "family": "start-delta-read-at-end"}
 
 
+def directed_bounds_spec(rng, idx, j):
+    """All constant/fluent combinations of (lower, upper) x all four openness combinations (j in 0..15), with other
+    actions that RAISE (`up`) and LOWER (`down`) the bound fluent n0, so that in the plans `up; act` and `down; act` the
+    bounds differ between the initial state and the state where `act` starts: a choice computed from stale values
+    (initial state, or only one of the two bounds refreshed) falls outside the interval (a stale lower bound after
+    `up`, a stale upper bound after `down`).  Every reachable interval is non-empty."""
+    lo_fl, hi_fl = bool(j & 1), bool(j & 2)
+    lopen, ropen = bool(j & 4), bool(j & 8)
+    v0 = rng.choice([F(4), F(5)])
+    up = rng.choice([F(3), F(4)])
+    vd = rng.choice([F(2), F(5, 2)])
+    n0 = ("f", "n0", None)
+    lo = n0 if lo_fl else ("c", rng.choice([F(1), F(3, 2)]))
+    if hi_fl and lo_fl:
+        hi = rng.choice([("+", n0, ("c", F(3))), ("*", ("c", F(2)), n0)])
+    elif hi_fl:
+        hi = n0
+    else:
+        hi = ("c", rng.choice([F(10), F(12)]))
+    act = {"name": "act0", "kind": "dur", "param": False, "conds": [], "effs": [("end", ("setb", "b0", None, True))],
+           "lo": lo, "hi": hi, "lopen": lopen, "ropen": ropen}
+    a_up = {"name": "act1", "kind": "inst", "param": False, "conds": [], "effs": [("start", ("inc", "n0", None, up))]}
+    if rng.random() < 0.5:
+        a_down = {"name": "act2", "kind": "inst", "param": False, "conds": [], "effs": [("start", ("setn", "n0", None, vd))]}
+    else:
+        a_down = {"name": "act2", "kind": "dur", "param": False, "conds": [],
+                  "effs": [(rng.choice(["start", "end"]), ("setn", "n0", None, vd))],
+                  "lo": ("c", F(1)), "hi": ("c", F(1)), "lopen": False, "ropen": False}
+    init = {"b0": False, "b1": False, "p": [True, False], "n0": v0, "n1": F(0), "n2": F(0), "lvl": [F(1), F(1)]}
+    return {"idx": idx, "acts": [act, a_up, a_down], "init": init, "goal": rng.choice([None, ("b", "b0", None, True)]),
+            "epsilon": rng.choice([None, F(1, 10)]), "prune": rng.random() < 0.7,
+            "family": "bounds-%s%s" % ("F" if lo_fl else "C", "F" if hi_fl else "C")}
+
+
 def step_state(spec, st, ai, param):
     act = spec["acts"][ai]
     st = apply_effs(st, [e for (w, e) in act["effs"] if w == "start"], param)
@@ -461,9 +495,10 @@ def run(ctx):
 
     ok_proofs = ctx.check_props(extra=["theories/Corr/Corr_C28.v"])
     rng = ctx.rng
-    n_problems = 40 if ctx.quick else 200
+    n_problems = 48 if ctx.quick else 200
     maxlen = 2 if ctx.quick else 3
-    n_directed = 14 if ctx.quick else 50      # problems of the family start-delta-read-at-end (see directed_startdelta_spec)
+    n_directed = 12 if ctx.quick else 50      # problems of the family start-delta-read-at-end (see directed_startdelta_spec)
+    n_bounds = 16 if ctx.quick else 48        # (lower, upper) in {const, fluent}^2 x 4 openness combinations (directed_bounds_spec)
     stats = Counter()
     stats["epsilon_zero_setter"] = epsilon_zero_probe(ctx)
     cases, raw, preamble = [], [], []
@@ -477,6 +512,8 @@ def run(ctx):
             spec = directed_alias_spec(pi)
         elif pi <= n_directed:
             spec = directed_startdelta_spec(rng, pi)
+        elif pi <= n_directed + n_bounds:
+            spec = directed_bounds_spec(rng, pi, (pi - n_directed - 1) % 16)
         else:
             spec = rand_spec(rng, pi)
         try:
@@ -552,9 +589,17 @@ def run(ctx):
                         tags.append("bound-const" if a_["lo"][0] == "c" else "bound-fluent")
                         stats["steps_interval_%s%s" % ("o" if a_["lopen"] else "c", "o" if a_["ropen"] else "c")] += 1
                         stats["steps_bound_%s" % ("const" if a_["lo"][0] == "c" else "fluent")] += 1
+                        stats["steps_lo%s_hi%s_%s%s" % ("C" if a_["lo"][0] == "c" else "F", "C" if a_["hi"][0] == "c" else "F",
+                                                        "o" if a_["lopen"] else "c", "o" if a_["ropen"] else "c")] += 1
                     else:
                         stats["steps_instantaneous"] += 1
                 stats["valid_compiled_plans_len_%d" % n] += 1
+                st0 = init_state(spec)
+                for (ai_, param_, st_) in steps:
+                    a_ = spec["acts"][ai_]
+                    if a_["kind"] == "dur" and (eval_bound(a_["lo"], st_, param_), eval_bound(a_["hi"], st_, param_)) != \
+                            (eval_bound(a_["lo"], st0, param_), eval_bound(a_["hi"], st0, param_)):
+                        stats["steps_bounds_differ_from_initial_state"] += 1
                 if state_mismatch and aliased:
                     stats["state_mismatch_under_known_alias"] += 1      # the finding itself; reported below if it matters
                 elif state_mismatch:
